@@ -31,6 +31,16 @@ def gen_history(rng: Rng, tier: str, kmax=3, allow_fixture=True, allow_real_sour
         fx, pw = r.pick(FIXTURE_BASES)
         base = {"fixture": fx}
         password = pw
+    elif allow_fixture and r.chance(0.2):
+        # first session produced by the independent reference writer with a layout of C06
+        from props import c06
+
+        for attempt in range(10):
+            c = c06.gen_case(rng.sub("refbase%d" % attempt), 10 ** 6, tier)
+            if "fixture" not in c and c["members"]:
+                base = {"ref": {"members": c["members"], "layout": c["layout"]}}
+                password = c["layout"].get("password")
+                break
     k = r.wpick([(3, 1), (4, 2), (2, 3)]) if base is None else r.wpick([(5, 1), (2, 2)])
     k = min(k, kmax)
     maxlen = maxlen or (70000 if r.chance(0.15) else 2500)
@@ -109,7 +119,24 @@ def run_history(case, want_c07=True, want_c08=True):
     log = []
     base_kind = "py7zr"
     try:
-        if case.get("base"):
+        if case.get("base") and "ref" in case["base"]:
+            from props import c06
+            from ref7z import writer as W
+
+            base_kind = "ref7z:layout"
+            logical = c06.materialize_members(case["base"]["ref"])
+            img = W.build(logical, dict(case["base"]["ref"]["layout"]))
+            password = case["base"]["ref"]["layout"].get("password")
+            fs.add(rw.SIM_PATH, img)
+            a = ref7z.read(img, password)
+            if ref7z.enforced_issues(a) or a.undecoded:
+                res["extra"]["ref_base_selfcheck_skipped"] = 1
+                res["digest"] = digest_of(["ref-base-skip"])
+                return res
+            for m in a.members:
+                model.append(rw.Mem(m.name, m.data, m.kind, m.mtime, m.attributes))
+                baseline[len(model) - 1] = (m.mtime, m.attributes)
+        elif case.get("base"):
             fx = case["base"]["fixture"]
             base_kind = "fixture:" + fx
             with open(os.path.join(REPO, "tests", "data", fx), "rb") as f:
